@@ -4,6 +4,7 @@ package main
 
 import (
 	"fmt"
+	"math/big"
 	"strconv"
 	"strings"
 	"unicode"
@@ -78,11 +79,11 @@ func lex(s string) ([]tok, error) {
 			}
 			// ".." must not be swallowed
 			txt := strings.ReplaceAll(s[i:j], "_", "")
-			n, err := strconv.ParseUint(txt, 0, 64)
-			if err != nil {
+			n, ok := new(big.Int).SetString(txt, 0)
+			if !ok {
 				return nil, fmt.Errorf("bad number %q", s[i:j])
 			}
-			out = append(out, tok{"int", strconv.FormatUint(n, 10)})
+			out = append(out, tok{"int", n.String()})
 			i = j
 		case c == '\'':
 			j := i + 1
